@@ -76,6 +76,15 @@ func (c *SchedCase) target(label string) *SchedTarget {
 	return nil
 }
 
+func (c *SchedCase) hasDir(p string) bool {
+	for _, q := range c.pkgs() {
+		if q == p {
+			return true
+		}
+	}
+	return false
+}
+
 func (c *SchedCase) pkgs() []string {
 	seen := map[string]bool{}
 	for _, t := range c.Targets {
@@ -486,10 +495,18 @@ func (c *SchedCase) EventTerms(ix *SchedIndex, obs *SchedObs) (string, bool) {
 func (c *SchedCase) CoqCase(obs *SchedObs) (string, bool) {
 	ix := c.Index()
 	evs, ok := c.EventTerms(ix, obs)
-	if obs.TimedOut {
-		return fmt.Sprintf("CHang %s %s", c.GraphTerm(ix), evs), ok
+	// which label's parse task evaluated a failing BUILD file: plz names it ("<label> failed:") in its error output
+	hints := []int{}
+	for _, line := range strings.Split(obs.Stderr, "\n") {
+		if i := strings.Index(line, "ERROR: //"); i >= 0 && strings.Contains(line, " failed:") {
+			l := strings.Fields(line[i+len("ERROR: "):])[0]
+			p, _ := SplitLabel(l)
+			if n, known := ix.Num[l]; known && (c.Broken[p] != "" || !c.hasDir(p)) {
+				hints = append(hints, n)
+			}
+		}
 	}
-	return fmt.Sprintf("CRun %s %s %s", c.GraphTerm(ix), evs, lib.Bool(obs.Exit != 0)), ok
+	return fmt.Sprintf("CRun %s %s %s %s", c.GraphTerm(ix), natList(hints), evs, lib.Bool(obs.Exit != 0)), ok
 }
 
 // ---------------------------------------------------------------------------------------------
@@ -708,6 +725,14 @@ func SchedOracle(c *SchedCase, obs *SchedObs) []SchedFinding {
 				add("C04", "result-misreported", "%s's command failed but it was reported as %q", l, kind[l])
 			}
 		}
+		if obs.Exit == 0 {
+			// a successful invocation has completed every target of the closure: each must have its one final result
+			for l := range c.closure() {
+				if ends[l] == 0 && ended[l] == 0 {
+					add("C04", "result-lost-at-shutdown", "exit status 0 but no final result for %s reached the result stream", l)
+				}
+			}
+		}
 		for l := range started {
 			if ended[l] == 0 && failedCmd[l] == 0 {
 				add("C05", "command-abandoned", "%s's command started but neither finished nor failed before plz exited", l)
@@ -817,7 +842,9 @@ func RunSchedProperty(c *lib.Ctx, prop string) {
 				skipModel = true
 			}
 		}
-		if !o.TraceOK && !o.TimedOut {
+		if o.TimedOut {
+			skipModel = true // the oracle has reported it; there is no terminated run to replay
+		} else if !o.TraceOK {
 			c.Note("case %d (%s): trace file incomplete (plz exited through log.Fatalf); model case not emitted; stderr: %.300s", i, sc.Kind, o.Stderr)
 			skipModel = true
 		}
